@@ -10,4 +10,26 @@ CLAIMED = {
   "technique": "symbolic execution of the real function body + SMT (z3/cvc5) discharge of postcondition, definedness and frame obligations; counter-models replayed natively",
  },
 }
+CLAIMED.update({
+ "C17": {
+  "text": "Unbounded proof over all positive inputs (log-monomial encoding: every formula executed from the real source becomes a linear expression in log10 of its inputs): the three converter pairs are exact inverses in both directions (explicit and default wavelength), composites equal the composition of the elementary converters, exponents lambda^(6/5), Cn2^(-3/5), lambda^(-1/5) exact, magnitude<->flux inverse for each of the 12 bands with the constants read from the real table, 5 mag = factor 100, photon counts proportional to mask sum, pixel area and exposure time, slope variance <-> r0 inverse, single-layer isoplanatic angle / coherence time = 0.314 r0/h, 0.314 r0/v with exact exponents and constants within 2e-3 (interval enclosures), and the axis argument of the profile integrals equals the per-profile call for ranks 2 and 3.",
+  "note": BASE + "ndarray.sum of the mask and ndarray.var of the slope rows are abstracted to positive reals; batch ranks checked: 2 and 3 (any rank reshapes to these).",
+  "technique": "symbolic execution of the real bodies in a log-monomial domain; linear real arithmetic obligations discharged by z3; constants by mpmath interval enclosures",
+ },
+ "C09": {
+  "text": "Unbounded proof for every length N >= 1 (odd and even), one symbolic leading batch axis and every spacing > 0, in the operator-word encoding: ft/ift/ft2/ift2 executed from the real source equal the statement's centred scaled transform on the last axis/axes (origin at sample floor(N/2) on input and output: residual rolls are 0 mod N), are mutual inverses in both orders (residual rolls 0 mod N, scalars 1), satisfy Parseval (energy functional) and are linear (structural); static resolution of the star-import chain proves aotools.ft/ift/ft2/ift2/rft/... are the Fourier module's functions. Real-input variants: bounded native stand-in, listed known finding.",
+  "note": BASE + "DFT identities (ifft.fft = id, Parseval, rolls) are the assumed contract of numpy.fft; rft/irft/rft2/irft2 are NOT proved (known finding C09-real-variants, bounded native check only).",
+  "technique": "symbolic execution to operator words over fft/ifft/roll/phase; word normalisation; residual arithmetic obligations (rolls mod N, scalars) discharged by z3",
+ },
+ "C10": {
+  "text": "Unbounded proof for all even N, wavelengths, spacings, magnifications and distances of either sign (z != 0, f != 0): each propagator executed from the real source is an operator word applied once to the input (hence linear), every quadratic-phase factor is exp(1j*real) (unit modulus), and the energy functional of the word times the output spacing squared equals the input spacing squared (QF_NRA identity per propagator and per path, both branches of the ZeroDivisionError handler). Frame clause: the input field is not written.",
+  "note": BASE + "ft2/ift2 are used through their contract (proved in C09), numpy.fft DFT identities assumed; Python-float scalars assumed for the ZeroDivisionError branch of twoStepFresnel.",
+  "technique": "symbolic execution to operator words + energy functional; nonlinear real arithmetic obligations discharged by z3",
+ },
+ "C11": {
+  "text": "Unbounded proof (all even N, wavelengths, spacings): angularSpectrum with z=0 returns the input; at unit magnification distances add for every split and -z undoes +z (word equality: phases add pointwise, rolls cancel mod N); magnification m then 1/m with -z is the identity up to a constant phase; twoStepFresnel equals two chained oneStepFresnel through the statement's intermediate plane; oneStepFresnel (z>0), lensAgainst (f>0) and twoStepFresnel (m=1, z>0) equal the discretised Fresnel integral on the upright grid x=(k-N/2)*d_out (kernel form: orientation). Negative partial distances: listed known finding, re-confirmed natively each run.",
+  "note": BASE + "rational-function identities between phases are discharged by sympy cancellation (exact) before z3; analytic Gaussian beam / Airy pattern and numerical agreement of different discretisations are not decided; orientation for negative distances is a known finding (C11-negative-distance-orientation).",
+  "technique": "symbolic execution to operator words; normalisation and word equality; phase identities by exact rational-function cancellation (sympy) and z3",
+ },
+})
 NOT_APPLICABLE = {}
